@@ -302,10 +302,15 @@ def r5(ctx):
             ctx.require_guards(cn, b.idx, [("now >= retry time", g_rel("Ge", lambda x: mentions_call(x, r"Instant::now$"), lambda x: mentions(x, lambda s: s[0] == "variant" and s[2] == "Failed")))], "create_next_task:retry-not-early", "retrying a failed automatic task")
 
 
+def r_plumb(ctx):
+    namesake_plumbing(ctx, ctx.prog, r"^(<)?dnp3::master::", 40, "plumbing")
+
+
 RULES = [
     ("C17.R1", "T2-order", "priority order of the automatic tasks; namesake tasks; auto before polls", r1),
     ("C17.R2", "T5/T2", "what a restart indication re-arms; process_iin routing and placement", r2),
     ("C17.R3", "T5/T3", "a session reset re-arms start-up; every exit of the master session resets", r3),
     ("C17.R4", "T2-cut", "unsolicited data gated by integrity completion; who opens the gate", r4),
     ("C17.R5", "T8/T11", "back-off provenance and clamping; failure/success hooks are namesakes", r5),
+    ("C17.R6", "T8-namesake", "the master's association configuration is plumbed field-to-namesake", r_plumb),
 ]
